@@ -90,12 +90,12 @@ Qed.
 
 Theorem apply_diff_tfronts :
   forall fingerprint inames hc_valid steps udp my other s,
-    tIv my -> tIv other -> get_t udp s = my ->
+    tIv my -> tIv other -> gInvT other -> get_t udp s = my ->
     exists c', replay fingerprint inames hc_valid steps (diff_tfronts udp my other) s = (set_t udp s c', 0%nat)
                /\ isort tf_le <$> drop_empty c' = isort tf_le <$> drop_empty other.
 Proof.
-  intros fp nm hc st udp my other s Hm Ho Hs.
-  destruct (piece_tfronts fp nm hc st udp my other s Hs Hm Ho) as (c' & Hr & Hi & Ha). exists c'. split; [exact Hr|apply tabs_norm_set; assumption].
+  intros fp nm hc st udp my other s Hm Ho Hg Hs.
+  destruct (piece_tfronts fp nm hc st udp my other s Hs Hm Ho Hg) as (c' & Hr & Hi & Ha). exists c'. split; [exact Hr|apply tabs_norm_set; assumption].
 Qed.
 
 Theorem apply_diff_listeners :
